@@ -1,6 +1,7 @@
 """Bounded stand-in (NOT a proof): StorageMapping.__getitem__ against the statement's rule -- per role, the storage of the
 LONGEST mapped prefix of the key that defines that role; StorageKeyError iff no mapped prefix.
 Bound: keys/prefixes of depth <= 4 over {a,b}, <= 6 mapped prefixes; n random cases (seeded)."""
+import logging; logging.disable(logging.CRITICAL)
 import json, os, random, sys
 SRC = os.environ.get("PYVC_REPO_SRC", "/repo/src")
 sys.path.insert(0, SRC)
